@@ -1,6 +1,7 @@
 package main
 
 import (
+	"bytes"
 	"fmt"
 	"os"
 	"os/exec"
@@ -153,6 +154,7 @@ func runC16(c *fw.Ctx) int {
 			}
 			c.Count("generate", id, outcome, len(g.Files), true)
 		}
+		multiFileRequests(c, bc)
 		c.Sample(map[string]interface{}{"stream": "generate", "schemas": len(genpipe.Corpus()), "variants": len(fmVariants) - 1})
 	}
 	if c.Tier == "thorough" {
@@ -194,6 +196,83 @@ func expectedFileNamesOf(g *genpipe.Generated, sch *genpipe.Schema, prefix strin
 	return out
 }
 
+// multiFileRequests: ONE request that names many .proto files (protoc a.proto b.proto …), per variant: the raw response
+// bytes of repeated runs (different GOMAXPROCS / environment) must be identical, and every file must be what the
+// one-file request for its .proto produced, under the same name.
+func multiFileRequests(c *fw.Ctx, bc *builtCorpus) {
+	byVariant := map[string][]*genpipe.Generated{}
+	var order []string
+	for _, g := range bc.gens {
+		if !g.Variant.FM || g.GenError != "" || g.Schema.Dep != nil || len(g.Schema.Imports) > 0 || g.Schema.ID == "samename" || g.Schema.ID == "shortnames" {
+			continue
+		}
+		if _, ok := byVariant[g.Variant.Name()]; !ok {
+			order = append(order, g.Variant.Name())
+		}
+		byVariant[g.Variant.Name()] = append(byVariant[g.Variant.Name()], g)
+	}
+	for _, vn := range order {
+		gs := byVariant[vn]
+		if len(gs) < 3 {
+			continue
+		}
+		req := &pluginpb.CodeGeneratorRequest{Parameter: proto.String(gs[0].Variant.FMParam()), CompilerVersion: &pluginpb.Version{Major: proto.Int32(3), Minor: proto.Int32(21), Patch: proto.Int32(0)}}
+		want := map[string]string{}
+		for _, g := range gs {
+			req.ProtoFile = append(req.ProtoFile, g.FileProto)
+			req.FileToGenerate = append(req.FileToGenerate, g.FMToGen...)
+			for _, n := range g.FMFiles {
+				want[n] = g.Files[n]
+			}
+		}
+		desc := map[string]interface{}{"variant": vn, "files_to_generate": req.FileToGenerate, "parameter": gs[0].Variant.FMParam()}
+		in, _ := proto.Marshal(req)
+		var first []byte
+		outcome := "ok"
+		for i, procs := range []string{"16", "1", "4", "16", "2", "8"} {
+			cmd := exec.Command(bc.plugins.FastMarshal)
+			cmd.Dir = os.TempDir()
+			cmd.Env = append(os.Environ(), "GOMAXPROCS="+procs, "VERIF_NOISE="+fmt.Sprint(i))
+			cmd.Stdin = strings.NewReader(string(in))
+			out, err := cmd.Output()
+			if err != nil {
+				outcome = "plugin-error"
+				c.Violate(fw.Violation{Stream: "generate", Signature: "gen/multi-file/plugin-error", What: "the plug-in failed on a request naming several files", Input: desc, Got: err.Error()})
+				break
+			}
+			if i == 0 {
+				first = out
+				resp := &pluginpb.CodeGeneratorResponse{}
+				if proto.Unmarshal(out, resp) != nil || resp.Error != nil {
+					outcome = "plugin-error"
+					c.Violate(fw.Violation{Stream: "generate", Signature: "gen/multi-file/plugin-error", What: "the plug-in failed on a request naming several files", Input: desc, Got: resp.GetError()})
+					break
+				}
+				seen := map[string]bool{}
+				for _, f := range resp.File {
+					if w, ok := want[f.GetName()]; !ok || w != f.GetContent() || seen[f.GetName()] {
+						outcome = "differs-from-single-file-request"
+						c.Violate(fw.Violation{Stream: "generate", Signature: "gen/multi-file/differs", What: "a file generated in a request that names several .proto files is not the file (name, content, once) the one-file request produced", Input: desc, Got: f.GetName()})
+						break
+					}
+					seen[f.GetName()] = true
+				}
+				if outcome == "ok" && len(seen) != len(want) {
+					outcome = "differs-from-single-file-request"
+					c.Violate(fw.Violation{Stream: "generate", Signature: "gen/multi-file/differs", What: "a request that names several .proto files does not produce all the files of the one-file requests", Input: desc, Expected: fmt.Sprint(len(want)), Got: fmt.Sprint(len(seen))})
+				}
+				continue
+			}
+			if !bytes.Equal(out, first) {
+				outcome = "nondeterministic"
+				c.Violate(fw.Violation{Stream: "generate", Signature: "gen/multi-file/nondeterministic", What: "identical requests naming several .proto files produced different response bytes (e.g. another file order)", Input: desc, Got: fmt.Sprintf("run %d (GOMAXPROCS=%s) differs from run 0", i, procs)})
+				break
+			}
+		}
+		c.Count("generate", "multi/"+vn, outcome, len(req.FileToGenerate), true)
+	}
+}
+
 func rerun(pl *genpipe.Plugins, g *genpipe.Generated) string {
 	req := &pluginpb.CodeGeneratorRequest{FileToGenerate: g.FMToGen, Parameter: proto.String(g.Variant.FMParam()),
 		ProtoFile: append(append([]*descriptorpb.FileDescriptorProto{}, g.Deps...), g.FileProto), CompilerVersion: &pluginpb.Version{Major: proto.Int32(3), Minor: proto.Int32(21), Patch: proto.Int32(0)}}
@@ -210,9 +289,12 @@ func rerun(pl *genpipe.Plugins, g *genpipe.Generated) string {
 	if proto.Unmarshal(out, resp) != nil {
 		return "second run: bad response"
 	}
-	for _, f := range resp.File {
+	for i, f := range resp.File {
 		if g.Files[f.GetName()] != f.GetContent() {
 			return fmt.Sprintf("file %s differs between two runs", f.GetName())
+		}
+		if i < len(g.FMFiles) && g.FMFiles[i] != f.GetName() {
+			return fmt.Sprintf("the files come in another order: %s where the first run had %s", f.GetName(), g.FMFiles[i])
 		}
 	}
 	if len(resp.File) != len(g.FMFiles) {
